@@ -84,6 +84,32 @@ _seq = [0]
 _seq_lock = threading.Lock()
 
 
+def run_group(cmd, timeout, env):
+    """Like vlib.core.run_cmd, but the harness runs in its own process group, its output goes to (anonymous) files, and the whole group
+    is killed as soon as the harness itself has exited.  A script that fails half way (a mutated tree: `COUNTER-LEAK`, a logical hang
+    report) can leave the subprocesses it spawned behind (`sleep 100000`, `cat`); they inherit the output descriptors, and with pipes
+    the reader would wait for THEIR exit - the verdict was there after a second but the check sat for hours (seen with mutants m7, M-f)."""
+    import signal
+    import subprocess
+    import tempfile
+    os.makedirs(SCRATCH, exist_ok=True)
+    with tempfile.TemporaryFile(dir=SCRATCH) as fo, tempfile.TemporaryFile(dir=SCRATCH) as fe:
+        p = subprocess.Popen(cmd, stdin=subprocess.DEVNULL, stdout=fo, stderr=fe, env=env, start_new_session=True)
+        try:
+            rc = p.wait(timeout=timeout)
+        except subprocess.TimeoutExpired:
+            rc = None
+        finally:
+            try:
+                os.killpg(p.pid, signal.SIGKILL)
+            except (ProcessLookupError, PermissionError):
+                pass
+            p.wait()
+        fo.seek(0)
+        fe.seek(0)
+        return rc, fo.read(), fe.read()
+
+
 def run_script(hx, src, tag, args=(), timeout=3000, watchdog=1200):
     os.makedirs(SCRATCH, exist_ok=True)
     with _seq_lock:
@@ -93,7 +119,7 @@ def run_script(hx, src, tag, args=(), timeout=3000, watchdog=1200):
     with open(p, "w") as f:
         f.write(src)
     try:
-        rc, out, err = run_cmd([hx, "--watchdog", str(watchdog)] + list(args) + [p], timeout=timeout, env=ENV)
+        rc, out, err = run_group([hx, "--watchdog", str(watchdog)] + list(args) + [p], timeout=timeout, env=ENV)
     finally:
         try:
             os.unlink(p)
